@@ -321,5 +321,161 @@ UNITS = [
     Unit('helpers.with_units/to_SI_from/from_SI_to', (HELP, 'with_units'), u_helpers, replay_with_units),
 ]
 for u in C11.UNITS:
-    if any(k in u.name for k in ('__mul__', '__rmul__', '__truediv__', '__rtruediv__', '__pow__')):
+    if any(k in u.name for k in ('__mul__', '__rmul__', '__truediv__', '__rtruediv__', '__pow__', '_build')):
         UNITS.append(u)
+
+
+# ---- bounded stand-in for the recursive-descent parser (never counted as proved) -------------------------
+ALPHABET = ['2', '0.5', '-3', 'm', 's', 'kg', '*', '/', '^', '(', ')']
+DIMS = {'m': (1, 0, 0), 's': (0, 0, 1), 'kg': (0, 1, 0)}
+
+
+class _Err(Exception):
+    pass
+
+
+class _Skip(Exception):
+    pass
+
+
+def spec_eval(tokens):
+    """Independent reading of the documented grammar:
+       expr := factor { ('*' | '/' | <juxtaposition = '*'>) factor }      (left associative)
+       factor := base [ '^' number ]         number := NUM | '(' NUM ')'
+       base := '(' expr ')' | NUM | NAME
+    Returns (value, (m, kg, s) exponents)."""
+    pos = [0]
+
+    def peek():
+        return tokens[pos[0]] if pos[0] < len(tokens) else None
+
+    def take():
+        t = peek()
+        if t is not None:
+            pos[0] += 1
+        return t
+
+    def isnum(t):
+        try:
+            float(t)
+            return True
+        except (TypeError, ValueError):
+            return False
+
+    def number():
+        t = take()
+        if t == '(':
+            t = take()
+            if take() != ')':
+                raise _Err()
+        if t is None or not isnum(t):
+            raise _Err()
+        return float(t) if '.' in t else int(t)
+
+    def base():
+        t = peek()
+        if t is None:
+            raise _Err()
+        if t == '(':
+            take()
+            v = expr()
+            if take() != ')':
+                raise _Err()
+            return v
+        if isnum(t):
+            return (number(), (0, 0, 0))
+        take()
+        if not t.isalpha() or t not in DIMS:
+            raise _Err()
+        return (1.0, DIMS[t])
+
+    def factor():
+        b = base()
+        if peek() == '^':
+            take()
+            k = number()
+            if b[0] < 0 and k != int(k):
+                raise _Skip()
+            if b[0] == 0 and k < 0:
+                raise _Skip()
+            return (b[0] ** k, tuple(e * k for e in b[1]))
+        return b
+
+    def expr():
+        v = factor()
+        while True:
+            t = peek()
+            if t is None:
+                return v
+            if t in ('*', '/'):
+                take()
+                w = factor()
+            else:
+                save = pos[0]
+                try:
+                    w = factor()
+                    t = '*'
+                except _Err:
+                    pos[0] = save
+                    return v
+            if t == '*':
+                v = (v[0] * w[0], tuple(a + b for a, b in zip(v[1], w[1])))
+            else:
+                if w[0] == 0:
+                    raise _Skip()
+                v = (v[0] / w[0], tuple(a - b for a, b in zip(v[1], w[1])))
+    v = expr()
+    if peek() is not None:
+        raise _Err()
+    return v
+
+
+def standin_parser(tier, seed):
+    """All token sequences up to a length bound over ALPHABET: the real tokenizer+parser+evaluator against spec_eval;
+    malformed sequences must raise UnitsParseError (and nothing else)."""
+    import itertools
+    from . import real
+    from pgradd.Units import eval_qty
+    from pgradd.Units.qty import Quantity
+    from pgradd.Error import UnitsParseError
+    maxlen = 4 if tier == 'quick' else 5
+    n, ok_n, viol, samples = 0, 0, [], []
+    with real.quiet():
+        for L in range(1, maxlen + 1):
+            for toks in itertools.product(ALPHABET, repeat=L):
+                text = ' '.join(toks)
+                try:
+                    want = spec_eval(list(toks))
+                except _Err:
+                    want = 'UnitsParseError'
+                except (_Skip, OverflowError, ZeroDivisionError):
+                    continue
+                n += 1
+                try:
+                    q = eval_qty(text)
+                    if isinstance(q, Quantity):
+                        e = q.units.exps
+                        got = (q.value, (e[0], e[1], e[2]))
+                    else:
+                        got = (q, (0, 0, 0))
+                except UnitsParseError:
+                    got = 'UnitsParseError'
+                except Exception as ex:    # noqa
+                    got = 'raised ' + type(ex).__name__
+                if isinstance(want, tuple) and isinstance(got, tuple):
+                    good = isinstance(got[0], (int, float)) and abs(got[0] - want[0]) <= 1e-9 * max(1, abs(want[0])) and \
+                        all(abs(a - b) < 1e-6 for a, b in zip(got[1], want[1]))
+                    ok_n += 1
+                else:
+                    good = got == want
+                if len(samples) < 6 and L >= 3 and isinstance(want, tuple) and n % 97 == 0:
+                    samples.append({'text': text, 'value': want[0], 'm_kg_s_exponents': want[1]})
+                if not good and len(viol) < 15:
+                    viol.append({'id': text.replace(' ', '_'), 'input': text, 'observed': str(got), 'expected': str(want),
+                                 'script': "from pgradd.Units import eval_qty\nprint(eval_qty(%r))  # expected %s\n" % (text, want)})
+    return {'name': 'unit-grammar-bounded-exhaustive', 'bound': 'all token sequences of length <= %d over %s' % (maxlen, ALPHABET),
+            'evaluations': n, 'distinct_nontrivial': ok_n, 'violations': viol, 'samples': samples, 'exhaustive': True,
+            'rule': 'every sequence is distinct; non-trivial = accepted by the documented grammar (the rest must be rejected)'}
+
+
+STANDINS = [standin_parser]
